@@ -10,173 +10,181 @@ use vh_lite::{read_cases, drive, drive_group, quiet_panics, Out};
 
 mod tc_left__ser;
 mod tc_left__src0;
-mod tc_left__perm2;
-mod tc_nonlin__pari;
-mod tc_nonlin__u64;
-mod mutual__mrt;
-mod mutual__srcpar;
-mod scc_chain__ser;
-mod scc_chain__permpar;
-mod consts__par;
-mod repeated__permpar;
-mod three_dyn__topar;
-mod four_dyn__ser;
-mod conds__gen;
-mod conds__perm1;
-mod count_up__par;
-mod multi_head__topar;
-mod facts__run;
-mod facts__runpar;
-mod facts__strpar;
-mod opt_cols__src1;
-mod cartesian__pari;
-mod same_gen__ren;
-mod two_inputs__ser;
-mod two_inputs__src0;
-mod two_inputs__perm2;
-mod wild__pari;
-mod ternary__str;
-mod bound_mix__ren;
-mod join_chain__perm1;
-mod cond_simple_join__par;
-mod zero_arity__par;
-mod lag_right__to;
-mod lag_right__strpar;
-mod lag_three__pari;
-mod lag_mid__ren;
-mod lag_late_delta__to;
-mod sp_dual__mrt;
-mod sp_dual__srcpar;
-mod sp_weighted__to;
-mod set_reach__par;
-mod set_reach__src1;
-mod bset__pari;
-mod opt_lat__ser;
-mod bool_lat__pari;
-mod lat_multi_improve__topar;
-mod count_paths__topar;
+mod tc_left__perm1;
+mod tc_nonlin__par;
+mod tc_nonlin__str;
+mod mutual__run;
+mod mutual__init;
+mod mutual__u64;
+mod scc_chain__perm2;
+mod diamond__pari;
+mod repeated__perm2;
+mod three_dyn__pari;
+mod three_dyn__u64;
+mod conds__run;
+mod conds__init;
+mod expr_args__par;
+mod multi_head__par;
+mod facts__ser;
+mod facts__src2;
+mod facts__ren;
+mod opt_cols__run;
+mod opt_cols__init;
+mod same_gen__pari;
+mod same_gen__u64;
+mod two_inputs__to;
+mod two_inputs__srcto;
+mod two_inputs__permpar;
+mod ternary__par;
+mod ternary__strpar;
+mod bound_mix__str;
+mod join_chain__ren;
+mod reach__ser;
+mod self_join3__ser;
+mod lag_right__perm1;
+mod lag_left__par;
+mod lag_three__topar;
+mod lag_mid__str;
+mod multi_head_rec__ser;
+mod sp_dual__par;
+mod sp_dual__src1;
+mod sp_dual__perm2;
+mod longest_capped__ser;
+mod set_reach__to;
+mod set_reach__srcto;
+mod bset__to;
+mod opt_lat__par;
+mod lat_two_keys__ser;
+mod lat_val_bound__ser;
+mod lat_input__run;
+mod lat_input__init;
+mod count_paths__run;
 mod count_paths__init;
 mod neg_basic__run;
-mod neg_basic__runpar;
-mod agg_minmaxsum__ser;
-mod agg_lattice__ser;
-mod neg_rec_after__ser;
-mod agg_empty__ser;
-mod agg_empty_rel__to;
-mod disj__par;
-mod disj__src1;
-mod disj__ren;
-mod disj_nested__exppar;
-mod rep_expr__pari;
-mod neg_in_disj__ser;
-mod mac_basic__to;
-mod mac_basic__redecl;
-mod mac_capture__pari;
-mod mac_gensym_disj__ser;
-mod mac_disj__exp;
-mod rnd_core_03__ser;
-mod rnd_core_05__pari;
-mod rnd_core_08__par;
-mod rnd_core_11__ser;
-mod rnd_core_13__pari;
-mod rnd_core_16__par;
-mod rnd_core_19__ser;
-mod rnd_core_21__pari;
-mod rnd_core_24__par;
-mod rnd_core_27__ser;
-mod rnd_core_29__pari;
-mod rnd_agg_02__par;
-mod rnd_agg_05__ser;
-mod rnd_agg_07__pari;
-mod rnd_agg_10__par;
-mod rnd_agg_13__ser;
-mod rnd_agg_15__pari;
+mod neg_basic__init;
+mod neg_basic__exppar;
+mod agg_depth__topar;
+mod agg_user__pari;
+mod agg_bound_mix__pari;
+mod agg_empty_rel__pari;
+mod disj__ser;
+mod disj__src0;
+mod disj__perm1;
+mod disj_nested__pari;
+mod rep_expr__ser;
+mod multi_head_disj__exp;
+mod mac_basic__par;
+mod mac_basic__src1;
+mod mac_basic__exppar;
+mod mac_nested__pari;
+mod mac_disj__ser;
+mod rnd_core_02__ser;
+mod rnd_core_04__pari;
+mod rnd_core_07__par;
+mod rnd_core_10__ser;
+mod rnd_core_12__pari;
+mod rnd_core_15__par;
+mod rnd_core_18__ser;
+mod rnd_core_20__pari;
+mod rnd_core_23__par;
+mod rnd_core_26__ser;
+mod rnd_core_28__pari;
+mod rnd_agg_01__par;
+mod rnd_agg_04__ser;
+mod rnd_agg_06__pari;
+mod rnd_agg_09__par;
+mod rnd_agg_12__ser;
+mod rnd_agg_14__pari;
 
 fn lookup(name: &str) -> fn() -> Box<dyn Driven> {
    match name {
       "tc_left__ser" => tc_left__ser::make,
       "tc_left__src0" => tc_left__src0::make,
-      "tc_left__perm2" => tc_left__perm2::make,
-      "tc_nonlin__pari" => tc_nonlin__pari::make,
-      "tc_nonlin__u64" => tc_nonlin__u64::make,
-      "mutual__mrt" => mutual__mrt::make,
-      "mutual__srcpar" => mutual__srcpar::make,
-      "scc_chain__ser" => scc_chain__ser::make,
-      "scc_chain__permpar" => scc_chain__permpar::make,
-      "consts__par" => consts__par::make,
-      "repeated__permpar" => repeated__permpar::make,
-      "three_dyn__topar" => three_dyn__topar::make,
-      "four_dyn__ser" => four_dyn__ser::make,
-      "conds__gen" => conds__gen::make,
-      "conds__perm1" => conds__perm1::make,
-      "count_up__par" => count_up__par::make,
-      "multi_head__topar" => multi_head__topar::make,
-      "facts__run" => facts__run::make,
-      "facts__runpar" => facts__runpar::make,
-      "facts__strpar" => facts__strpar::make,
-      "opt_cols__src1" => opt_cols__src1::make,
-      "cartesian__pari" => cartesian__pari::make,
-      "same_gen__ren" => same_gen__ren::make,
-      "two_inputs__ser" => two_inputs__ser::make,
-      "two_inputs__src0" => two_inputs__src0::make,
-      "two_inputs__perm2" => two_inputs__perm2::make,
-      "wild__pari" => wild__pari::make,
-      "ternary__str" => ternary__str::make,
-      "bound_mix__ren" => bound_mix__ren::make,
-      "join_chain__perm1" => join_chain__perm1::make,
-      "cond_simple_join__par" => cond_simple_join__par::make,
-      "zero_arity__par" => zero_arity__par::make,
-      "lag_right__to" => lag_right__to::make,
-      "lag_right__strpar" => lag_right__strpar::make,
-      "lag_three__pari" => lag_three__pari::make,
-      "lag_mid__ren" => lag_mid__ren::make,
-      "lag_late_delta__to" => lag_late_delta__to::make,
-      "sp_dual__mrt" => sp_dual__mrt::make,
-      "sp_dual__srcpar" => sp_dual__srcpar::make,
-      "sp_weighted__to" => sp_weighted__to::make,
-      "set_reach__par" => set_reach__par::make,
-      "set_reach__src1" => set_reach__src1::make,
-      "bset__pari" => bset__pari::make,
-      "opt_lat__ser" => opt_lat__ser::make,
-      "bool_lat__pari" => bool_lat__pari::make,
-      "lat_multi_improve__topar" => lat_multi_improve__topar::make,
-      "count_paths__topar" => count_paths__topar::make,
+      "tc_left__perm1" => tc_left__perm1::make,
+      "tc_nonlin__par" => tc_nonlin__par::make,
+      "tc_nonlin__str" => tc_nonlin__str::make,
+      "mutual__run" => mutual__run::make,
+      "mutual__init" => mutual__init::make,
+      "mutual__u64" => mutual__u64::make,
+      "scc_chain__perm2" => scc_chain__perm2::make,
+      "diamond__pari" => diamond__pari::make,
+      "repeated__perm2" => repeated__perm2::make,
+      "three_dyn__pari" => three_dyn__pari::make,
+      "three_dyn__u64" => three_dyn__u64::make,
+      "conds__run" => conds__run::make,
+      "conds__init" => conds__init::make,
+      "expr_args__par" => expr_args__par::make,
+      "multi_head__par" => multi_head__par::make,
+      "facts__ser" => facts__ser::make,
+      "facts__src2" => facts__src2::make,
+      "facts__ren" => facts__ren::make,
+      "opt_cols__run" => opt_cols__run::make,
+      "opt_cols__init" => opt_cols__init::make,
+      "same_gen__pari" => same_gen__pari::make,
+      "same_gen__u64" => same_gen__u64::make,
+      "two_inputs__to" => two_inputs__to::make,
+      "two_inputs__srcto" => two_inputs__srcto::make,
+      "two_inputs__permpar" => two_inputs__permpar::make,
+      "ternary__par" => ternary__par::make,
+      "ternary__strpar" => ternary__strpar::make,
+      "bound_mix__str" => bound_mix__str::make,
+      "join_chain__ren" => join_chain__ren::make,
+      "reach__ser" => reach__ser::make,
+      "self_join3__ser" => self_join3__ser::make,
+      "lag_right__perm1" => lag_right__perm1::make,
+      "lag_left__par" => lag_left__par::make,
+      "lag_three__topar" => lag_three__topar::make,
+      "lag_mid__str" => lag_mid__str::make,
+      "multi_head_rec__ser" => multi_head_rec__ser::make,
+      "sp_dual__par" => sp_dual__par::make,
+      "sp_dual__src1" => sp_dual__src1::make,
+      "sp_dual__perm2" => sp_dual__perm2::make,
+      "longest_capped__ser" => longest_capped__ser::make,
+      "set_reach__to" => set_reach__to::make,
+      "set_reach__srcto" => set_reach__srcto::make,
+      "bset__to" => bset__to::make,
+      "opt_lat__par" => opt_lat__par::make,
+      "lat_two_keys__ser" => lat_two_keys__ser::make,
+      "lat_val_bound__ser" => lat_val_bound__ser::make,
+      "lat_input__run" => lat_input__run::make,
+      "lat_input__init" => lat_input__init::make,
+      "count_paths__run" => count_paths__run::make,
       "count_paths__init" => count_paths__init::make,
       "neg_basic__run" => neg_basic__run::make,
-      "neg_basic__runpar" => neg_basic__runpar::make,
-      "agg_minmaxsum__ser" => agg_minmaxsum__ser::make,
-      "agg_lattice__ser" => agg_lattice__ser::make,
-      "neg_rec_after__ser" => neg_rec_after__ser::make,
-      "agg_empty__ser" => agg_empty__ser::make,
-      "agg_empty_rel__to" => agg_empty_rel__to::make,
-      "disj__par" => disj__par::make,
-      "disj__src1" => disj__src1::make,
-      "disj__ren" => disj__ren::make,
-      "disj_nested__exppar" => disj_nested__exppar::make,
-      "rep_expr__pari" => rep_expr__pari::make,
-      "neg_in_disj__ser" => neg_in_disj__ser::make,
-      "mac_basic__to" => mac_basic__to::make,
-      "mac_basic__redecl" => mac_basic__redecl::make,
-      "mac_capture__pari" => mac_capture__pari::make,
-      "mac_gensym_disj__ser" => mac_gensym_disj__ser::make,
-      "mac_disj__exp" => mac_disj__exp::make,
-      "rnd_core_03__ser" => rnd_core_03__ser::make,
-      "rnd_core_05__pari" => rnd_core_05__pari::make,
-      "rnd_core_08__par" => rnd_core_08__par::make,
-      "rnd_core_11__ser" => rnd_core_11__ser::make,
-      "rnd_core_13__pari" => rnd_core_13__pari::make,
-      "rnd_core_16__par" => rnd_core_16__par::make,
-      "rnd_core_19__ser" => rnd_core_19__ser::make,
-      "rnd_core_21__pari" => rnd_core_21__pari::make,
-      "rnd_core_24__par" => rnd_core_24__par::make,
-      "rnd_core_27__ser" => rnd_core_27__ser::make,
-      "rnd_core_29__pari" => rnd_core_29__pari::make,
-      "rnd_agg_02__par" => rnd_agg_02__par::make,
-      "rnd_agg_05__ser" => rnd_agg_05__ser::make,
-      "rnd_agg_07__pari" => rnd_agg_07__pari::make,
-      "rnd_agg_10__par" => rnd_agg_10__par::make,
-      "rnd_agg_13__ser" => rnd_agg_13__ser::make,
-      "rnd_agg_15__pari" => rnd_agg_15__pari::make,
+      "neg_basic__init" => neg_basic__init::make,
+      "neg_basic__exppar" => neg_basic__exppar::make,
+      "agg_depth__topar" => agg_depth__topar::make,
+      "agg_user__pari" => agg_user__pari::make,
+      "agg_bound_mix__pari" => agg_bound_mix__pari::make,
+      "agg_empty_rel__pari" => agg_empty_rel__pari::make,
+      "disj__ser" => disj__ser::make,
+      "disj__src0" => disj__src0::make,
+      "disj__perm1" => disj__perm1::make,
+      "disj_nested__pari" => disj_nested__pari::make,
+      "rep_expr__ser" => rep_expr__ser::make,
+      "multi_head_disj__exp" => multi_head_disj__exp::make,
+      "mac_basic__par" => mac_basic__par::make,
+      "mac_basic__src1" => mac_basic__src1::make,
+      "mac_basic__exppar" => mac_basic__exppar::make,
+      "mac_nested__pari" => mac_nested__pari::make,
+      "mac_disj__ser" => mac_disj__ser::make,
+      "rnd_core_02__ser" => rnd_core_02__ser::make,
+      "rnd_core_04__pari" => rnd_core_04__pari::make,
+      "rnd_core_07__par" => rnd_core_07__par::make,
+      "rnd_core_10__ser" => rnd_core_10__ser::make,
+      "rnd_core_12__pari" => rnd_core_12__pari::make,
+      "rnd_core_15__par" => rnd_core_15__par::make,
+      "rnd_core_18__ser" => rnd_core_18__ser::make,
+      "rnd_core_20__pari" => rnd_core_20__pari::make,
+      "rnd_core_23__par" => rnd_core_23__par::make,
+      "rnd_core_26__ser" => rnd_core_26__ser::make,
+      "rnd_core_28__pari" => rnd_core_28__pari::make,
+      "rnd_agg_01__par" => rnd_agg_01__par::make,
+      "rnd_agg_04__ser" => rnd_agg_04__ser::make,
+      "rnd_agg_06__pari" => rnd_agg_06__pari::make,
+      "rnd_agg_09__par" => rnd_agg_09__par::make,
+      "rnd_agg_12__ser" => rnd_agg_12__ser::make,
+      "rnd_agg_14__pari" => rnd_agg_14__pari::make,
       _ => panic!("no such program variant in this shard: {}", name),
    }
 }
